@@ -431,8 +431,8 @@ theorem sc_upd {a x : Sys} (c : Cid) (f : Ctx → Ctx)
     (hf : ∀ y, (f y).path = y.path ∧ (f y).state = y.state ∧ (f y).zombie = y.zombie) (h : SameCore a x) :
     SameCore a (upd x c f) := h.trans (sameCore_upd _ _ _ hf)
 
-theorem sameCore_onSupervise (s : Sys) (self : Cid) (chain : List (Cid × List Cid)) : SameCore s (onSupervise s self chain) := by
-  unfold onSupervise
+theorem sameCore_onSuperviseDecide (s : Sys) (self : Cid) (chain : List (Cid × List Cid)) : SameCore s (onSuperviseDecide s self chain) := by
+  unfold onSuperviseDecide
   simp only
   have h0 : SameCore s (if (s.ctx self).strat = 0 then s else upd s self (fun x => { x with decIdx := x.decIdx + 1 })) := by
     split
@@ -447,6 +447,12 @@ theorem sameCore_onSupervise (s : Sys) (self : Cid) (chain : List (Cid × List C
       | apply sc_tell
       | apply sc_say
       | (apply sc_upd; · intro _; exact ⟨rfl, rfl, rfl⟩))
+
+theorem sameCore_onSupervise (s : Sys) (self : Cid) (chain : List (Cid × List Cid)) : SameCore s (onSupervise s self chain) := by
+  unfold onSupervise
+  split
+  · exact sameCore_onSuperviseDecide _ _ _
+  · exact sameCore_tell _ _ _ _ _
 
 end Vivid.ActorSys
 
